@@ -181,6 +181,8 @@ def run(cx):
     heap_order(cx, "C17.f", ["event"])
     from props.shared import active_timeout_sweep
     active_timeout_sweep(cx, "C17.g")
+    from props.shared import config_verbatim
+    config_verbatim(cx, "C17.h")
 
 
 SELFTEST = [
